@@ -4,7 +4,7 @@
     nodes, the bit invariant [tbits], representable keys, size).  [PInv] implies the executable
     check [p_inv_check] of PatInv.v, hence every query theorem proved there. *)
 From Coq Require Import List NArith ZArith Bool Lia Sorted.
-From Algo.C06 Require Import Spec SpecFacts Model ModelPat ProofsBinQ PatInv PatBits PatTree.
+From Algo.C06 Require Import Spec SpecFacts Model ModelPat ProofsBinQ PatInv PatBits PatTree PatMatch.
 Import ListNotations.
 Open Scope Z_scope.
 
@@ -641,7 +641,7 @@ Section Put.
   Definition nd_event (e : ev V) : Prop :=
     match e with
     | EPut k _ => kvalid k
-    | _ => checked_query e
+    | _ => checked_query_m e
     end.
 
   Lemma p_run_noDelete : forall es t m, PInv t -> p_contents t = m -> Forall nd_event es ->
@@ -650,7 +650,7 @@ Section Put.
     induction es as [|e es IH]; intros t m I C F; [reflexivity|].
     inversion F as [|? ? E F']; subst. cbn [p_run s_run].
     destruct e; cbn [nd_event] in E;
-      try (rewrite (p_step_checked t _ (PInv_check t I) E); cbn [s_step snd]; f_equal; now apply IH).
+      try (rewrite (p_step_checked_m t _ (PInv_check t I) E); cbn [s_step snd]; f_equal; now apply IH).
     destruct (p_put_preserves t k v I E) as [t' [P [I' C']]].
     cbn [p_step s_step]. rewrite P. cbn [rbind lift_mut]. f_equal. now apply IH.
   Qed.
